@@ -65,7 +65,8 @@ Definition model_ok (c : case) : bool :=
   | OpEntropy site rg =>
       match entropy_counts rs site rg with
       | None => c_err c
-      | Some l => negb (c_err c) && Bool.eqb (c_flag c) (match l with [] => true | _ => false end)
+      | Some l => negb (c_err c) && Bool.eqb (c_flag c) (match l with [] => true | _ => false end) &&
+                  Zlist_eqb (c_l1 c) [1%Z]      (* a function of the column: repeated calls agree *)
       end
   | OpVariable => negb (c_err c) && Z.eqb (c_num c) (Z.of_nat (nb_variable_sites rs))
   | OpInformative => negb (c_err c) && Zlist_eqb (c_l1 c) (zl (informative_sites al rs))
@@ -172,7 +173,9 @@ Definition spec_check (c : case) : option bool :=
               negb (c_err c) &&
               Bool.eqb (c_flag c)
                 (Nat.eqb (cnt (fun s => negb (beqb s x2a) && negb (beqb s x2e) && negb (rg && beqb s x2d))
-                              (column rs (Z.to_nat site))) 0)
+                              (column rs (Z.to_nat site))) 0) &&
+              (* calling again returns the same bits (40 repeated calls) *)
+              Zlist_eqb (c_l1 c) [1%Z]
             else c_err c)
   | OpVariable =>
       Some (negb (c_err c) &&
